@@ -163,6 +163,9 @@ static void body(int r) {
   me.blocked = -1; me.finished = true; ev(r, 31, fail);
 }
 
+// waiter queues are std::queue in the tree as it stands; accept a plain std::deque too so that candidate fixes can be checked
+template <class T> static const std::deque<T> &cont(const std::queue<T> &q) { return q.c; }
+template <class T> static const std::deque<T> &cont(const std::deque<T> &q) { return q; }
 static int tok2idx(const RoutineToken &t) { for (int i = 0; i < g.nrt; i++) if (g.R[i].created && g.R[i].tok.equal(t)) return i; return -1; }
 template <class Q> static bool queued(const Q &q, const RoutineToken &t) { for (auto &x : q) if (x.equal(t)) return true; return false; }
 static bool quiescent() { return g.sch->d_->ready_routines.empty(); }
@@ -194,9 +197,9 @@ static void qcheck() {
     if (X.cancel_issued) viol("cancelled-routine-not-terminated-when-idle");
     const char *where = "";
     switch (X.blocked) {
-      case RECV: if (!g.ch->queue_.empty()) { where = queued(g.ch->token_.c, X.tok) ? ":waiter-still-queued" : ":waiter-not-queued"; viol(std::string("lost-wakeup-channel-nonempty-receiver-suspended") + where); } break;
-      case LOCK: if (g.mu->hold_token_.isNull()) { where = queued(g.mu->wait_tokens_.c, X.tok) ? ":waiter-still-queued" : ":waiter-not-queued"; viol(std::string("lost-wakeup-mutex-free-waiter-suspended") + where); } break;
-      case ACQ: if (g.sem->count_ > 0) { where = queued(g.sem->token_.c, X.tok) ? ":waiter-still-queued" : ":waiter-not-queued"; viol(std::string("lost-wakeup-semaphore-positive-waiter-suspended") + where); } break;
+      case RECV: if (!g.ch->queue_.empty()) { where = queued(cont(g.ch->token_), X.tok) ? ":waiter-still-queued" : ":waiter-not-queued"; viol(std::string("lost-wakeup-channel-nonempty-receiver-suspended") + where); } break;
+      case LOCK: if (g.mu->hold_token_.isNull()) { where = queued(cont(g.mu->wait_tokens_), X.tok) ? ":waiter-still-queued" : ":waiter-not-queued"; viol(std::string("lost-wakeup-mutex-free-waiter-suspended") + where); } break;
+      case ACQ: if (g.sem->count_ > 0) { where = queued(cont(g.sem->token_), X.tok) ? ":waiter-still-queued" : ":waiter-not-queued"; viol(std::string("lost-wakeup-semaphore-positive-waiter-suspended") + where); } break;
       case BWAIT: if (g.bposted[r]) viol("lost-wakeup-broadcast-posted-waiter-suspended"); break;
       case CWAIT: if (g.cwaiter == r && g.csat) viol("lost-wakeup-condition-satisfied-waiter-suspended"); break;
       case JOIN1: if (g.R[X.barg].finished) viol("join-target-finished-joiner-suspended"); break;
@@ -206,9 +209,9 @@ static void qcheck() {
   }
   // primitive state (token queues as routine indices; x = token of a routine that no longer exists)
   auto toks = [&](const std::deque<RoutineToken> &q) { for (auto &t : q) { int i = tok2idx(t); bool alive = i >= 0 && !g.R[i].finished; canon += alive ? char('0' + i) : 'x'; } canon += '|'; };
-  canon += "ch" + std::to_string(g.ch->queue_.size()) + ":"; toks(g.ch->token_.c);
-  canon += "mu" + std::to_string(g.mu->hold_token_.isNull() ? -1 : tok2idx(g.mu->hold_token_)) + ":"; toks(g.mu->wait_tokens_.c);
-  canon += "se" + std::to_string(g.sem->count_) + ":"; toks(g.sem->token_.c);
+  canon += "ch" + std::to_string(g.ch->queue_.size()) + ":"; toks(cont(g.ch->token_));
+  canon += "mu" + std::to_string(g.mu->hold_token_.isNull() ? -1 : tok2idx(g.mu->hold_token_)) + ":"; toks(cont(g.mu->wait_tokens_));
+  canon += "se" + std::to_string(g.sem->count_) + ":"; toks(cont(g.sem->token_));
   canon += "bc"; for (auto &t : g.bc->wait_tokens_) { int i = tok2idx(t); canon += (i >= 0 && !g.R[i].finished) ? char('0' + i) : 'x'; }
   canon += "|co" + std::to_string(g.cond->conds_.size()) + (g.cond->wait_token_.isNull() ? "n" : std::to_string(tok2idx(g.cond->wait_token_)));
   if (g_states.insert(std::hash<std::string>()(canon)).second) shm->states++;
@@ -374,7 +377,7 @@ static int enum_main(int argc, char **argv) {
       signal(SIGALRM, on_alarm);
       for (long idx = start; idx < total; idx += nparts) {
         if (now_s() > deadline) { printf("@CAP %s: deadline reached at program %ld of %ld (part %ld/%ld)\n", tag.c_str(), idx, total, part, nparts); shm->capped = 1; break; }
-        shm->cur_prog = idx; alarm(20);
+        shm->cur_prog = idx; alarm(10);
         Prog p; p.nr = NR; p.param = param; long x = idx; int tot = 0; for (int r = NR - 1; r >= 0; r--) { p.s[r] = scripts[x % NS]; x /= NS; tot += p.s[r].n; }
         if (tot > maxtotal) continue;
         std::vector<Act> sched; explore(p, sched, maxacts, Inherited()); shm->programs++;
@@ -394,7 +397,7 @@ static int enum_main(int argc, char **argv) {
     else snprintf(how, sizeof how, "child-exit%d-in-%s", WEXITSTATUS(st), kPhase[shm->phase]);
     if (++crash_sigs[how] <= 3) printf("%s sig=%s :: %s\n", VIOLTAG(), how, run_str(shm->prog, std::vector<Act>(shm->sched, shm->sched + shm->nsched)).c_str());
     start = shm->cur_prog + nparts; shm->programs++;
-    if (++restarts >= 25) { printf("@CAP %s: 25 hung/crashed programs in part %ld/%ld, enumeration stopped at program %ld of %ld\n", tag.c_str(), part, nparts, start, total); break; }
+    if (++restarts >= 8) { printf("@CAP %s: 8 hung/crashed programs in part %ld/%ld, enumeration stopped at program %ld of %ld\n", tag.c_str(), part, nparts, start, total); break; }
   }
   printf("@STAT loops=%ld programs=%ld executions=%ld transitions=%ld states=%ld traces=%ld quiescent_checks=%ld violating_runs=%ld cancels=%ld midrun_cleanups=%ld\n",
          shm->loops, shm->programs, shm->executions, shm->transitions, shm->states, shm->traces, shm->qchecks, shm->viol_runs, shm->cancels, shm->cleanups_mid);
